@@ -339,7 +339,7 @@ class G(object):
         self.in_update = True
         q = {'kind': 'update', 'items': [], 'distinct': None, 'top': None, 'top_kw': 'top', 'where': None, 'join': None, 'order': None, 'group': None, 'except': None, 'assign': [], 'with': None}
         if 'join' in features and self.B is not None:
-            q['join'] = self.gen_join()
+            q['join'] = self.gen_join(strict_ok=rng.random() < 0.4)      # UPDATE ... STRICT LEFT JOIN: an A record without exactly one match fails the query
         lim = self.wa + (1 if 'beyond' in features else 0)
         if self.a_names is not None:
             lim = min(lim, len(self.a_names)) if 'beyond' not in features else lim
